@@ -11,7 +11,7 @@ import PMV.Model.Transforms
   * remove_literal_statements keeps the module docstring when the module uses `__doc__`.
   * combine_imports: import statements are equal up to splitting them into single-name imports.
   * remove_object_base: `object` may disappear from a base list.
-  * remove_explicit_return_none: `return None` ≡ `return`; a trailing bare `return` of a function may go.
+  * remove_explicit_return_none: `return None` ≡ `return`; trailing bare `return`s of a function may go.
   * remove_annotations: the four kinds; never in dataclass / NamedTuple / TypedDict classes; a
     value-less annotated name keeps an annotation (the literal `0`).
   * convert_posargs_to_args: positional-only parameters become ordinary parameters.
@@ -62,10 +62,18 @@ def splitImport (c : COpts) : Stmt → List Stmt
   | .importFrom m names l => if c.imports then names.map (fun a => .importFrom m [a] l) else [.importFrom m names l]
   | s => [s]
 
+def isBareReturn : Stmt → Bool
+  | .return_ none => true
+  | _ => false
+
+/-- every bare `return` at the end of the list goes (the transform removes one per run; a function that ends in several
+    is the same function with or without them) -/
 def dropTrailingBareReturn : List Stmt → List Stmt
   | [] => []
-  | [.return_ none] => []
-  | s :: ss => s :: dropTrailingBareReturn ss
+  | s :: ss =>
+    match dropTrailingBareReturn ss with
+    | [] => if isBareReturn s then [] else [s]
+    | r => s :: r
 
 /-- canonical form of a statement list whose statements are already canonical -/
 def cSuite (c : COpts) (isFuncBody : Bool) (b : List Stmt) : List Stmt :=
